@@ -341,6 +341,7 @@ package algo
 //@   invariant M == len(pattern) && 2 <= M && len(F) == M && len(T) == N && len(B) == N && len(H) == width * M && len(C) == width * M
 //@   invariant f0 == F[0] && 0 <= f0 && width == lastIdx - f0 + 1 && 1 <= width && lastIdx < N && len(Fsub) == M - 1 && len(Psub) == M - 1
 //@   invariant Fsub == F[1:] && Psub == pattern[1:M]
+//@   invariant init(B, 0, N) && forall(k, 0, N, 0 <= B[k] && B[k] <= 10)
 //@   invariant init(H, iter * width + F[iter] - f0, (iter + 1) * width) && init(C, iter * width + F[iter] - f0, (iter + 1) * width)
 //@   invariant forall(k, iter * width + F[iter] - f0, (iter + 1) * width, 0 <= H[k] && H[k] <= 26 * iter + 36 && 0 <= C[k] && C[k] <= iter + 1 && C[k] <= k - iter * width + 1)
 //@   invariant 0 <= maxScore && maxScore <= 26 * iter + 36 && 0 <= maxScorePos && maxScorePos <= lastIdx
@@ -351,6 +352,7 @@ package algo
 //@   invariant Tsub == T[f:lastIdx+1] && Bsub == B[f:lastIdx+1] && Hsub == H[row+f-f0:row+f-f0+len(Tsub)] && Hleft == H[row+f-f0-1:row+f-f0-1+len(Tsub)] && Hdiag == H[row+f-f0-1-width:row+f-f0-1-width+len(Tsub)]
 //@   invariant Csub == C[row+f-f0:row+f-f0+len(Tsub)] && Cdiag == C[row+f-f0-1-width:row+f-f0-1-width+len(Tsub)]
 //@   invariant init(Hleft, 0, iter + 1) && init(Csub, 0, iter)
+//@   invariant init(B, 0, N) && forall(k, 0, N, 0 <= B[k] && B[k] <= 10)
 //@   invariant init(Hdiag, 0, len(Tsub)) && init(Cdiag, 0, len(Tsub))
 //@   invariant forall(k, 0, len(Tsub), 0 <= Hdiag[k] && Hdiag[k] <= 26 * (pidx - 1) + 36 && 0 <= Cdiag[k] && Cdiag[k] <= pidx && Cdiag[k] <= f - f0 + k)
 //@   invariant forall(k, 0, iter + 1, 0 <= Hleft[k] && Hleft[k] <= 26 * pidx + 36)
